@@ -8,7 +8,11 @@ HOOKS = {
     "add_only": True,
 }
 
+TECH_VERUS = "contract-based deductive verification: Verus requires/ensures on functions extracted verbatim from /repo on every run, IEC spec functions, inductive trace lemmas, canary vacuity guards"
+
 ENGINES = [
+    {"name": "verus-extracted", "path": "/verif/lib/verus_engine.py", "serves_properties": ["C04"],
+     "kind_free_text": "Verus 0.2026.09.13 on single files assembled on every run from items/slices copied verbatim out of /repo (lib/extract.py) plus hand-written spec functions, contracts and lemmas (verus/*.rs.tmpl)"},
     {"name": "kani-in-place", "path": "/verif/lib/kani_engine.py", "serves_properties": ["C01", "C02", "C03"],
      "kind_free_text": "Kani 0.68 / CBMC 6.11 contract harnesses #[path]-included into the real crates; full-domain symbolic inputs; concrete playback of counterexamples on the real code"},
 ]
@@ -23,6 +27,14 @@ CLAIMS = {
         "note": "Trusted: Kani/CBMC/rustc; partial correctness; only the operator core is under contract, eval_expr/exec_stmt/prepare_bindings are not decided.",
         "technique": TECH_KANI,
     },
+}
+
+CLAIMS["C04"] = {
+    "engine": "verus-extracted",
+    "text": "The real Ton/Tof/Tp/Ctu/Ctd/Ctud/RTrig/FTrig/Sr/Rs::step bodies (extracted verbatim each run) satisfy one-step contracts equal to the IEC 61131-3 FB bodies, for all inputs; trace lemmas by induction over unbounded call sequences derive the property's trace-level clauses (TON.Q iff consecutive on-time reaches PT, TOF hold-off, TP one non-retriggerable pulse, ET within [0,PT] and monotone, counters saturate = min(edge count, max), edge detectors fire exactly one call per edge) from those step functions.",
+    "design_ref": "DESIGN.md §3 C04",
+    "note": "Trusted: Verus/Z3; machine-integer precondition et+delta <= i64::MAX (clock < 2^62 ns); PT constant per trace in the trace lemmas; exec_* storage glue and instance independence are not yet under contract (listed as not decided in evidence).",
+    "technique": TECH_VERUS,
 }
 
 NOTES = "Contract-based deductive verification only. See DESIGN.md. Exit codes of bin/check: 0 all baseline obligations discharged; 1 VIOLATION; 2 undecided (never an alarm)."
